@@ -68,14 +68,58 @@ harnesses! { c09 ;
     c09_f_unary [2] => b::c09_number::f_unary;
 }
 
+harnesses! { step ;
+    c08_op_add [8] => b::step::binary_number_op::<_, 7>;
+    c08_op_subtract [8] => b::step::binary_number_op::<_, 8>;
+    c08_op_multiply [8] => b::step::binary_number_op::<_, 9>;
+    c08_op_divide [8] => b::step::binary_number_op::<_, 10>;
+    c08_op_integer_divide [8] => b::step::binary_number_op::<_, 11>;
+    c08_op_power [8] => b::step::binary_number_op::<_, 12>;
+    c08_op_remainder [8] => b::step::binary_number_op::<_, 15>;
+    c08_op_bitwise_and [8] => b::step::binary_number_op::<_, 17>;
+    c08_op_bitwise_or [8] => b::step::binary_number_op::<_, 18>;
+    c08_op_bitwise_xor [8] => b::step::binary_number_op::<_, 19>;
+    c08_op_bitwise_shift_left [8] => b::step::binary_number_op::<_, 20>;
+    c08_op_bitwise_shift_right [8] => b::step::binary_number_op::<_, 21>;
+    c08_op_opposite [8] => b::step::unary_number_op::<_, 13>;
+    c08_op_absolute_value [8] => b::step::unary_number_op::<_, 14>;
+    c08_op_bitwise_not [8] => b::step::unary_number_op::<_, 16>;
+    step_put [8] => b::step::put;
+    step_put_value [8] => b::step::value_ops::<_, 2>;
+    step_push_value [8] => b::step::value_ops::<_, 3>;
+    step_update_value [8] => b::step::value_ops::<_, 4>;
+    step_start_side_effect [8] => b::step::value_ops::<_, 49>;
+    step_end_side_effect [8] => b::step::value_ops::<_, 50>;
+    step_jump_to [8] => b::step::jump_ops::<_, false>;
+    step_reapply [8] => b::step::jump_ops::<_, true>;
+    step_end_expression [8] => b::step::end_expression;
+    step_make_pair [8] => b::step::make_two::<_, 38>;
+    step_concat [8] => b::step::make_two::<_, 55>;
+    step_partial_apply [8] => b::step::make_two::<_, 41>;
+    step_type_of [8] => b::step::type_ops::<_, false>;
+    step_type_equal [8] => b::step::type_ops::<_, true>;
+    step_make_range [8] => b::step::make_range::<_, 51>;
+    step_make_start_exclusive_range [8] => b::step::make_range::<_, 52>;
+    step_make_end_exclusive_range [8] => b::step::make_range::<_, 53>;
+    step_make_exclusive_range [8] => b::step::make_range::<_, 54>;
+    c10_truth_jump_if_true [8] => b::step::truth_jump::<_, true>;
+    c10_truth_jump_if_false [8] => b::step::truth_jump::<_, false>;
+    c10_truth_and [8] => b::step::truth_and_or::<_, true>;
+    c10_truth_or [8] => b::step::truth_and_or::<_, false>;
+    c10_truth_not [8] => b::step::truth_unary::<_, true>;
+    c10_truth_tis [8] => b::step::truth_unary::<_, false>;
+    c10_truth_xor [8] => b::step::truth_xor;
+}
+
 #[cfg(not(kani))]
 pub fn dispatch(name: &str, n: &mut crate::nondet::ReplayNondet) -> bool {
-    c09::dispatch(name, n)
+    c09::dispatch(name, n) || step::dispatch(name, n)
 }
 
 #[cfg(not(kani))]
 pub fn all_names() -> Vec<&'static str> {
     let mut v = vec![];
     v.extend(c09::names());
+    v.extend(step::names());
     v
 }
